@@ -64,6 +64,10 @@ TwinFails(e) == TwinFailsOf(e, e.x, e.obs.twins, e.obs.surr, "", FALSE)
                       THEN {"TwinsDef|RecurrencePlot.twins after set_fixed_threshold"} ELSE {})
                 \cup (IF e.obs.rp_twins_back # e.obs.rp_twins
                       THEN {"TwinsDef|RecurrencePlot.twins after set_fixed_threshold (back)"} ELSE {})
+                \cup (IF e.obs.rn_twins_rr # e.obs.rp_twins_rr
+                      THEN {"TwinsDef|RecurrenceNetwork.twins after set_fixed_recurrence_rate"} ELSE {})
+                \cup (IF e.obs.rn_twins_thr # e.obs.rp_twins
+                      THEN {"TwinsDef|RecurrenceNetwork.twins after set_fixed_threshold"} ELSE {})
                 \cup (IF e.obs.rp_shape # <<2, Len(Embed(e.x, e.dim, 1)), e.dim>>
                       THEN {"Shape|RecurrencePlot.twin_surrogates"} ELSE {})
 Verdict(e) ==
